@@ -74,7 +74,7 @@ class Exec(Interp):
         if self.in_spec and isinstance(node.func, ast.Name) and node.func.id == "old":
             if self.old_env is None:
                 raise CheckerError("old() used where no pre-state exists")
-            fr = Frame(self.frame.module, self.old_env, spec=True, label="old")
+            fr = Frame(self.frame.module, self.old_env, parent=self.frame, spec=True, label="old")
             self.frames.append(fr)
             try:
                 return self.ev(node.args[0])
